@@ -168,6 +168,23 @@ def climb (H : Adrs → Bytes → Bytes) (idx : Nat) (auth : List Bytes) :
       let adrs := adrs.setTreeIndex ((adrs.getTreeIndex - 1) / 2)
       climb H idx auth cnt (k + 1) adrs (H adrs (authK ++ node))
 
+/-- the root of the complete binary tree of height `h` over `leaf 0 … leaf (2^h − 1)` -/
+def merkleRoot (H : Adrs → Bytes → Bytes) (leaf : Nat → Bytes) (adrs : Adrs) (h : Nat) : Bytes :=
+  treeNode H leaf adrs 0 h
+
+/-- the authentication path of leaf `idx`: on every level `j < h` the sibling `⌊idx/2^j⌋ ⊕ 1`
+    (Algorithm 10 lines 1–4, Algorithm 16 lines 6–9) -/
+def authPath (H : Adrs → Bytes → Bytes) (leaf : Nat → Bytes) (adrs : Adrs) (idx h : Nat) : List Bytes :=
+  (List.range h).map fun j => treeNode H leaf adrs ((idx / 2 ^ j) ^^^ 1) j
+
+/-- recompute the root from a leaf value, its index and an authentication path
+    (Algorithm 11 lines 6–19) -/
+def rootFromPath (H : Adrs → Bytes → Bytes) (adrs : Adrs) (h : Nat) (leafVal : Bytes) (idx : Nat)
+    (path : List Bytes) : Bytes :=
+  let adrs := adrs.setTreeHeight 0
+  let adrs := adrs.setTreeIndex idx
+  climb H idx path h 0 adrs leafVal
+
 /-! ## §6 XMSS -/
 
 /-- Algorithm 9 `xmss_node(SK.seed, i, z, PK.seed, ADRS)` -/
